@@ -352,6 +352,8 @@ def restart_target(uid, d2='X', *, dk=0, kind='ok'):
         time.sleep(0.4)
     if kind == 'slowbox':
         return [uid, d2, dk, SlowBox(uid, 0.7)]
+    if kind == 'gil':
+        hold_gil(25)                # a long C call that never lets the child's control thread run
     if kind == 'block':
         # one blocking call: a termination request is only noticed when it returns
         time.sleep(0.4)
